@@ -25,7 +25,8 @@ Un(vs) == UNCHANGED vs
 Ids == DOMAIN pend
 Next ==
   /\ l <= Len(Trace) /\ l' = l + 1
-  /\ CASE Ev.ev = "reset" ->
+  /\ CASE kind = "done" /\ Ev.ev # "reset" -> Un(<<kind, n, started, got, closedIn, demand, returned, eof, srcSt, srcClosed, pend, closed, cancelled, gotD>>)      \* the harness's epilogue is not judged
+       [] Ev.ev = "reset" ->
             /\ kind' = Ev.kind /\ n' = Ev.n /\ started' = <<>> /\ got' = <<>> /\ closedIn' = {} /\ demand' = 0 /\ returned' = FALSE /\ eof' = FALSE
             /\ srcSt' = [i \in 1..Ev.n |-> 0] /\ srcClosed' = [i \in 1..Ev.n |-> 0] /\ pend' = <<>> /\ closed' = 0 /\ cancelled' = {}
             /\ gotD' = [j \in 1..Ev.nd |-> <<>>]
